@@ -145,7 +145,7 @@ def _make_data(init, seed):
 
 
 class St:
-    __slots__ = ('ifg', 'dead', 'other', 'mode', 'snap', 'scale')
+    __slots__ = ('ifg', 'dead', 'other', 'mode', 'snap', 'scale', 'qval')
 
     def __init__(self, ifg):
         self.ifg = ifg          # the primary object: every event is applied to it
@@ -154,6 +154,7 @@ class St:
         self.mode = None        # None | 'fork' (other = the copy) | 'fork_swap' (other = the original, primary = the copy)
         self.snap = None        # what ``other`` reported at the moment of the fork
         self.scale = 1.0        # magnitude of the initial data (the canonical state rounds data relative to it)
+        self.qval = None        # what the last read-only query returned
 
 
 def fresh(init, seed):
@@ -299,7 +300,9 @@ def apply(st, ev, R):
     elif name == 'pvr':
         out = R.call(ifg.pvr, sig=sig)
     elif name == 'pvr_r':
-        out = R.call(ifg.pvr, arg * (min(np.shape(ifg.data)) // 2) * ifg.dx, sig=sig)
+        # an ABSOLUTE radius (1.2 for the 0.5-spaced initial grids): the same number is asked again after latcal / crop / pad have
+        # changed the grid, as a user comparing maps over one fixed aperture would
+        out = R.call(ifg.pvr, arg * 1.5, sig=sig)
     elif name in ('psd', 'slope'):
         out = R.call(getattr(ifg, name), sig=sig)
     elif name == 'bandlimited_rms':
@@ -318,7 +321,37 @@ def apply(st, ev, R):
         raise ValueError(f'unknown event {ev!r}')
     if out is FAILED:
         st.dead = True
+    st.qval = out if name in QUERY_NAMES else None
     return st
+
+
+def _query(obj, name, arg):
+    if name == 'pvr':
+        return obj.pvr()
+    if name == 'pvr_r':
+        return obj.pvr(arg * 1.5)
+    if name == 'psd':
+        return obj.psd()
+    if name == 'bandlimited_rms':
+        return obj.bandlimited_rms(flow=0.1 / obj.dx, fhigh=0.45 / obj.dx)
+    if name == 'tis':
+        return obj.total_integrated_scatter(arg)
+    if name == 'slope':
+        return obj.slope()
+    if name == 'slices':
+        return obj.slices()
+    raise ValueError(name)
+
+
+def _qflat(v):
+    """the numbers a query reported, as a flat list of arrays"""
+    if isinstance(v, (tuple, list)):
+        return [a for w in v for a in _qflat(w)]
+    if hasattr(v, 'data') and isinstance(getattr(v, 'data'), np.ndarray):
+        return [np.asarray(v.data, dtype=float)]
+    if hasattr(v, 'x') and hasattr(v, 'y') and not isinstance(v, np.ndarray):      # Slices
+        return [np.asarray(v.x[1], dtype=float), np.asarray(v.y[1], dtype=float)]
+    return [np.asarray(v, dtype=float)]
 
 
 def _alphabet(tier):
@@ -367,6 +400,9 @@ def make_events(tier, pre=None, post=None):
 # ---------------------------------------------------------------------------------------------
 # canonical state
 
+KNOWN_ATTRS = {'data', 'dx', 'wavelength', '_x', '_y', '_r', '_t', '_latcaled', 'interpf_x', 'interpf_y', 'interpf_2d', 'intensity', 'meta'}
+
+
 def _dig(h, a):
     if a is None:
         h.update(b'None;')
@@ -406,6 +442,18 @@ def canon(st):
         h.update(repr((float(obj.dx) if _isnum(obj.dx) else repr(obj.dx), bool(obj._latcaled))).encode())
         for k in ('_x', '_y', '_r', '_t'):
             _dig(h, getattr(obj, k, None))
+        # anything else an implementation hangs on the instance (a memo of a fit, of slices, of a window ...) can be read by a later
+        # transition, so it is part of the state: on the pinned tree there is no such attribute and nothing changes in the merging
+        for k in sorted(set(vars(obj)) - KNOWN_ATTRS):
+            v = vars(obj)[k]
+            h.update(k.encode())
+            if isinstance(v, np.ndarray):
+                h.update(str(v.shape).encode() + np.ascontiguousarray(v).tobytes())
+            else:
+                try:
+                    h.update(repr(sorted(v.items()) if isinstance(v, dict) else v)[:2000].encode())
+                except Exception:   # noqa
+                    h.update(str(type(v)).encode())
     h.update(repr(st.mode).encode())
     return h.hexdigest()
 
@@ -488,6 +536,22 @@ def step_check(before, ev, st, R):
         # a query changes nothing a user can observe (it may populate the lazy caches with the values a read would give)
         for what, ok, msg in differences(ifg, before):
             R.expect(ok, f'query:{name}:{what}', f'the read-only query {name} changed the object: {msg}')
+        # ... and what it reports is a function of what the object holds NOW: the same query on a fresh object with the same data,
+        # dx and Cartesian coordinates (their origin is path dependent after crop, so they are handed over) reports the same numbers
+        if name != 'str' and st.qval is not None:
+            bx, by = before['vis']['x'], before['vis']['y']
+            if isinstance(bx, np.ndarray) and isinstance(by, np.ndarray):
+                twin = Interferogram(before['data'].copy(), dx=before['dx'])
+                twin.x, twin.y = bx.copy(), by.copy()
+                want = R.call(_query, twin, name, arg, sig=f'query:{name}:fresh-object:exception', hygiene=False)
+                if want is not FAILED:
+                    try:
+                        g, w = _qflat(st.qval), _qflat(want)
+                        ok = len(g) == len(w) and all(a.shape == b.shape and np.allclose(a, b, rtol=1e-9, atol=1e-12 * max(_scale(before['data']), 1e-300), equal_nan=True) for a, b in zip(g, w))
+                        msg = '' if ok else f'{name} reported {[a.ravel()[:3].tolist() for a in g][:2]}, a fresh object with the same data, dx and coordinates reports {[a.ravel()[:3].tolist() for a in w][:2]}'
+                    except Exception as e:   # noqa
+                        ok, msg = False, f'uncomparable query results: {type(e).__name__}: {e}'
+                    R.expect(ok, f'query:{name}:depends-on-history', msg)
         R.nontrivial()
         R.outcome('query')
         return
